@@ -108,6 +108,7 @@ B('C01.truth-value-field-admits-integers', ['C01'], [(P + 'ssh/subprotocol.py', 
 B('C07.trailing-comma-in-name-list-accepted', ['C07', 'C16'], [(P + 'common/parse.py', "                if not skip_empty:\n                    # a separator at the very end is followed by an empty item\n                    raise InvalidValue(self._parsable[item_offset:], type(self), name)\n                break", "                break")], mention='empty-name')
 B('C18.media-subtype-case-kept', ['C18'], [(P + 'common/field.py', "        return FieldValueMimeType(parser['type'].lower(), parser['registry']), parser.parsed_length", "        return FieldValueMimeType(parser['type'], parser['registry']), parser.parsed_length")], mention='C18.R10')
 B('C18.media-type-registry-case-sensitive', ['C18'], [(P + 'common/field.py', "        return MimeTypeRegistry(value.lower())", "        return MimeTypeRegistry(value)")], mention='C18.R10')
+B('C18.csp-keywords-case-sensitive', ['C18'], [(P + 'httpx/header.py', "class ContentSecurityPolicySourceKeyword(StringEnumCaseInsensitiveParsable, enum.Enum):", "class ContentSecurityPolicySourceKeyword(StringEnumParsable, enum.Enum):")], mention='C18.R11')
 B('C02.unsupported-width', ['C02'], [(P + 'tls/extension.py', "        parser.parse_numeric('record_size_limit', 2)", "        parser.parse_numeric('record_size_limit', 5)")], props=['C02'])
 B('C02.raw-index', ['C02'], [(P + 'tls/extension.py', "        if parser['extension_data']:\n            raise InvalidValue(parser['extension_data'], cls)",
                              "        if parser['extension_data'][0]:\n            raise InvalidValue(parser['extension_data'], cls)")])
